@@ -178,6 +178,9 @@ func AllocGuard(limit int, f func()) {
 	}
 }
 
+// ClockNs is the engine's virtual clock (0 natively, where wall-clock time is not compared).
+func ClockNs() int64 { return 0 }
+
 // Panics runs f and reports whether it panicked (ordinary Go; interpreted by the engine as is).
 func Panics(f func()) (p bool) {
 	defer func() {
